@@ -9,8 +9,10 @@ with 10 ms spacing.  The state of every path right before the dedupe run and the
 equal what the extracted history model (final / stat_of / hist_run) computes from D and the operations.
 Oracle (model-free): inventory before/after run_script - every path that was removed / replaced / moved
 held bytes that an untouched member still holds.
-K1 (known finding): the report's time stamp is taken in write_report, so a same-length rewrite between
-hashing and write_report is invisible; replayed on every run.
+K1 (repaired by /repo 8227c8a): run_group stamps the report BEFORE the scan; the harness mirrors that order
+(start_time ; group_files ; ... ; write_report_at(start_time)), the old K1 history is case 0 of every run and a
+rewrite placed inside a real, still running `fclones group` is checked at the level of the binary
+(run_cli_window); data lost through that window is a plain VIOLATION (changed_between_hashing_and_report_timestamp).
 """
 import json
 import os
@@ -270,7 +272,7 @@ def report(ctx, fails, model_bin, scratch):
     for kind, rec, text in fails:
         if kind == "corr":
             continue
-        if kind in ("changed_between_hashing_and_report_timestamp", "dedupe_run_hangs") or "cli_hist_spec" in rec:
+        if kind in ("changed_between_hashing_and_report_timestamp", "dedupe_run_hangs") or "case" not in rec:
             ctx.violation({"kind": kind}, text, rec, found_input=True)
             continue
         if kind in seen:
@@ -305,7 +307,7 @@ def report(ctx, fails, model_bin, scratch):
                 nb = neighbourhood(r["case"])
                 res, mo = run_both(ctx, nb, model_bin, scratch)
                 for x in examine(ctx, nb, res, mo, count=False):
-                    if x[0] not in ("corr", "changed_between_hashing_and_report_timestamp"):
+                    if x[0] != "corr":
                         found = x
                         break
                 if found:
@@ -549,14 +551,29 @@ def run_cli_hist(ctx, spec, model_bin, fclones, clidir, count=True):
             gr["glen"], len(selp["--keep-name"]), len(selp["--keep-path"]), len(selp["--name"]), len(selp["--path"])) + " ;".join(mem))
     mout = core.run_lines(model_bin, mlines) if mlines else []
     predicted = set()
+    unobservable = set()      # predicted hard-link replacements of a path that already IS a hard link of the target
     for gr, o in zip(groups, mout):
         if o.startswith("EXN"):
             raise RuntimeError("model: " + o)
         pm = o.split(" ## ")[0]
         if pm.startswith("ok"):
+            k = pm.split("K=")[1].split(" ")[0]
             d = pm.split("D=")[1]
             if d != "-":
-                predicted |= set(gr["files"][int(i)] for i in d.split(","))
+                dropped = set(gr["files"][int(i)] for i in d.split(","))
+                predicted |= dropped
+                if spec["op"] == "hl" and k != "-":
+                    # with --match-links a hard link of the retained file is a replica of its own and is "processed":
+                    # `ln target link` on a path that already names the target's inode leaves (type, inode, bytes) as they were
+                    target = gr["files"][int(k.split(",")[0])]
+                    try:
+                        tst = os.stat(target, follow_symlinks=False)
+                        for q in dropped:
+                            qst = os.stat(q, follow_symlinks=False)
+                            if (qst.st_dev, qst.st_ino) == (tst.st_dev, tst.st_ino):
+                                unobservable.add(q)
+                    except OSError:
+                        pass
     pre = inventory(paths)
     cmd = [fclones] + CLI_OPS[spec["op"]] + ([os.path.join(clidir, "moved")] if spec["op"] == "mv" else []) + sel
     d = c08.sh(cmd, other, stdin=report, env=env_d)
@@ -577,10 +594,17 @@ def run_cli_hist(ctx, spec, model_bin, fclones, clidir, count=True):
                           "member holds these bytes" % (p.replace(tree + "/", ""), bytes.fromhex(pre[p][2]), edit,
                                                         spec["files"][spec["victim"]]["rel"], " ".join(CLI_OPS[spec["op"]]))))
     # correspondence: the set of paths the run changed = what partition (merge header cli) drops
+    import re as _re
+    m = _re.search(r"Processed (\d+) files", d.stderr)
+    processed = int(m.group(1)) if m else None
+    rec["processed_reported"] = processed
+    rec["unobservable_relinks"] = rel(unobservable)
     if spec["op"] == "rl":
         ok = changed <= predicted          # no FICLONE on this file system: the commands fail and change nothing
     else:
-        ok = changed == predicted
+        # observed diff = predicted set modulo the re-links that cannot be seen in (type, inode, bytes);
+        # the count printed by the binary does see them
+        ok = (changed == predicted - unobservable) and (d.returncode != 0 or processed == len(predicted))
     if not ok:
         fails.append(("corr", rec, "CLI run changed %s, model of run_dedupe (merge of the header + partition) predicts %s" % (rel(changed), rel(predicted))))
     if count:
@@ -599,18 +623,76 @@ def run_cli_hist(ctx, spec, model_bin, fclones, clidir, count=True):
     return fails
 
 
+def run_cli_window(ctx, fclones, clidir, attempt):
+    """K1 regression at the level of the binary (main.rs run_group decides WHEN the report is stamped): a scan kept
+    busy by two large files; the small member b is rewritten with the same length while `fclones group` is still
+    running and after b was hashed; then a real `remove`.  Conclusive iff the report lists {a, b} (b was hashed
+    before the edit) and the process was still running after the edit.  -> (conclusive, fails)"""
+    import shutil
+    import time
+    shutil.rmtree(clidir, ignore_errors=True)
+    tree = os.path.join(clidir, "tree")
+    os.makedirs(tree)
+    for n in ("a", "b"):
+        with open(os.path.join(tree, n), "wb") as fh:
+            fh.write(b"DDDDDDDD")
+        os.utime(os.path.join(tree, n), (1_600_000_000, 1_600_000_000))
+    for n in ("big1", "big2"):
+        with open(os.path.join(tree, n), "wb") as fh:
+            fh.truncate((64 + 48 * attempt) * 1024 * 1024)       # sparse; hashing them keeps the scan running
+    rep = os.path.join(clidir, "report")
+    env = dict(os.environ, RAYON_NUM_THREADS="2")
+    t0 = time.time()
+    proc = subprocess.Popen([fclones, "group", tree, "-o", rep, "--rf-over", "1"], cwd=clidir, env=env,
+                            stdout=subprocess.DEVNULL, stderr=subprocess.DEVNULL)
+    time.sleep(0.3 + 0.15 * attempt)
+    b = os.path.join(tree, "b")
+    with open(b, "wb") as fh:
+        fh.write(b"EEEEEEEE")
+    t_edit = time.time()
+    running_after_edit = proc.poll() is None
+    try:
+        proc.wait(timeout=300)
+    except subprocess.TimeoutExpired:
+        proc.kill()
+        return False, []
+    report = open(rep).read() if os.path.exists(rep) else ""
+    listed = [l[4:] for l in report.split("\n") if l.startswith("    ")]
+    conclusive = running_after_edit and os.path.join(tree, "a") in listed and b in listed
+    fails = []
+    if conclusive:
+        pre = inventory([os.path.join(tree, "a"), b])
+        d = c08.sh([fclones, "remove"], clidir, stdin=report, env=env)
+        post = inventory([os.path.join(tree, "a"), b])
+        ts_line = [l for l in report.split("\n") if l.startswith("# Timestamp:")][0]
+        rec = {"cli_window": True, "report_timestamp": ts_line, "edit_after_start_s": round(t_edit - t0, 3),
+               "pre": {k.replace(tree + "/", ""): list(v) for k, v in pre.items()},
+               "post": {k.replace(tree + "/", ""): list(v) for k, v in post.items()}, "remove_stderr": d.stderr[-800:].replace(clidir, "<dir>"),
+               "how": "a, b = DDDDDDDD plus two large files; b rewritten with EEEEEEEE while `fclones group` was running, after b had "
+                      "been hashed (the report lists a and b as one group); then `fclones remove < report`"}
+        for pth in pre:
+            if pre[pth] != post[pth] and pre[pth][0] == "file":
+                if not any(q != pth and pre[q] == post[q] and pre[q][2] == pre[pth][2] for q in pre):
+                    fails.append(("changed_between_hashing_and_report_timestamp", rec,
+                                  "%s held %s and was removed although no other file holds these bytes: a same-length rewrite made "
+                                  "WHILE `fclones group` was running went unnoticed (is the report stamped when it is written?)"
+                                  % (os.path.basename(pth), bytes.fromhex(pre[pth][2]))))
+    shutil.rmtree(clidir, ignore_errors=True)
+    return conclusive, fails
+
+
 K1_CASE = {"len": 4, "members": [{"path": "a"}, {"path": "b"}], "ops": [{"m": 1, "phase": 1, "kind": "write_same"}],
            "op": "rm", "iso": [], "nosize": False, "prio": [], "n": None, "format": "text", "mlinks": False}
 
 
 def run(ctx):
-    ctx.rule = ("histories driven through the real library in main.rs order: group_files ; phase-1 operations ; write_report ; "
+    ctx.rule = ("histories driven through the real library in main.rs order: start_time ; group_files ; phase-1 operations ; write_report_at(start_time) ; "
                 "phase-2 operations ; dedupe(modified_before = header time stamp) ; run_script.  Groups of 2-5 equal files (optionally "
                 "a hard-link pair; 5/8 of the histories with isolated roots so that several files share a sub-group), 0-3 operations out of {rewrite same length / other length / same bytes, append, truncate, touch, "
                 "unlink, recreate same length / other length / same bytes, replace by directory, fifo, dangling symlink, symlink to a "
                 "directory} each on any member in either phase, 5 dedupe ops, no_check_size, priorities, text/json report; one case = "
                 "one history; non-trivial = at least one operation and the dedupe run issued a command; distinct = distinct history "
-                "description.  The K1 history (same-length rewrite before write_report, then remove) is replayed on every run; 35 directed histories change a "
+                "description.  The former K1 history (same-length rewrite between hashing and the writing of the report, then remove) is case 0 of every run and 2 (thorough 6) runs rewrite a member while a real `fclones group` is still running; 35 directed histories change a "
                 "NON-FIRST path of a multi-file isolated root / hard-link set after the report")
     ctx.assumptions = ["ordinary operations stamp mtime := the time they happen (C04's proviso); the kernel's coarse clock may stamp up to "
                        "one tick (4 ms) EARLIER than the wall clock, so the harness keeps 10 ms between the report and the operations",
@@ -626,6 +708,14 @@ def run(ctx):
     os.makedirs(scratch, exist_ok=True)
     if ctx.replay:
         rp = json.load(open(ctx.replay))
+        if rp.get("cli_window"):
+            fl = []
+            for k in range(4):
+                conclusive, fl = run_cli_window(ctx, core.build_fclones(), os.path.join(ctx.scratch, "cliw"), k)
+                if conclusive:
+                    break
+            report(ctx, fl, model_bin, scratch)
+            return
         if "cli_hist_spec" in rp:
             fl = run_cli_hist(ctx, rp["cli_hist_spec"], model_bin, core.build_fclones(), os.path.join(ctx.scratch, "cli"))
             report(ctx, fl, model_bin, scratch)
@@ -658,5 +748,19 @@ def run(ctx):
     fclones = core.build_fclones()
     for _ in range(ctx.pick(160, 1800)):
         fails += run_cli_hist(ctx, gen_cli_hist(ctx.rng), model_bin, fclones, os.path.join(ctx.scratch, "cli"))
+    # the window while `group` is still running, at the level of the binary (K1 regression)
+    want, got, tries = ctx.pick(2, 6), 0, 0
+    while got < want and tries < want + 4:
+        conclusive, fl = run_cli_window(ctx, fclones, os.path.join(ctx.scratch, "cliw"), tries)
+        tries += 1
+        ctx.bump("cli_rewrite_during_group_run", "conclusive" if conclusive else "inconclusive(edit not inside the window)")
+        if conclusive:
+            got += 1
+            ctx.count()
+            ctx.distinct(("cliw", tries), True)
+            fails += fl
+    ctx.extra["cli_rewrite_during_group_run_conclusive"] = got
+    if got == 0:
+        raise RuntimeError("the rewrite-during-group-run scenario could not be placed inside the window in %d attempts" % tries)
     report(ctx, fails, model_bin, scratch)
     ctx.extra["exhaustive"] = False
